@@ -36,14 +36,20 @@ type tableInfo struct {
 }
 
 type zoo struct {
+	order  []string // registration order
 	schema *sqlgen.Schema
 	tables []*tableInfo
 	byName map[string]*tableInfo
 }
 
-func buildZoo() (*zoo, error) {
+// buildZoo registers the zoo's tables in an order that is a function of the
+// seed (what a table's codec does must not depend on what was registered
+// before it in the process); z.tables keeps the declaration order, so the case
+// -> table mapping does not change.
+func buildZoo(seed int64) (*zoo, error) {
 	z := &zoo{schema: sqlgen.NewSchema(), byName: map[string]*tableInfo{}}
-	for k, td := range zooTables {
+	for _, k := range rand.New(rand.NewSource(seed)).Perm(len(zooTables)) {
+		td := zooTables[k]
 		pk := sqlgen.UniqueId
 		if td.name == "users" {
 			pk = sqlgen.AutoIncrement
@@ -51,29 +57,37 @@ func buildZoo() (*zoo, error) {
 		if err := z.schema.RegisterType(td.name, pk, td.proto); err != nil {
 			return nil, fmt.Errorf("RegisterType(%s): %v", td.name, err)
 		}
+		z.order = append(z.order, td.name)
+	}
+	for k, td := range zooTables {
 		t := z.schema.ByName[td.name]
 		ti := &tableInfo{name: td.name, typ: t.Type, table: t, isCol: map[string]bool{}}
 		for _, c := range t.Columns {
 			f := t.Type.FieldByIndex(c.Index)
 			ti.isCol[f.Name] = true
 			d := c.Descriptor
-			s := &colSpec{name: c.Name, fieldIdx: c.Index, fieldType: f.Type, base: d.Type, ptr: d.Ptr}
-			isValuer := d.Type.Implements(driverValuerType) || reflect.PtrTo(d.Type).Implements(driverValuerType)
+			// type facts come from the struct field itself, not from thunder's descriptor
+			base, isPtr := f.Type, false
+			if base.Kind() == reflect.Ptr {
+				base, isPtr = base.Elem(), true
+			}
+			s := &colSpec{name: c.Name, fieldIdx: c.Index, fieldType: f.Type, base: base, ptr: isPtr}
+			isValuer := base.Implements(driverValuerType) || reflect.PtrTo(base).Implements(driverValuerType)
 			tagged := d.Tags.Contains("json") || d.Tags.Contains("binary") || d.Tags.Contains("string")
-			switch d.Kind {
+			switch base.Kind() {
 			case reflect.Int, reflect.Int8, reflect.Int16, reflect.Int32, reflect.Int64:
 				if !isValuer && !tagged {
-					s.intBits = d.Type.Bits()
+					s.intBits = base.Bits()
 				}
 			case reflect.Uint, reflect.Uint8, reflect.Uint16, reflect.Uint32, reflect.Uint64:
 				if !isValuer && !tagged {
-					s.intBits, s.intUns = d.Type.Bits(), true
+					s.intBits, s.intUns = base.Bits(), true
 				}
 			case reflect.Float32:
 				s.isFloat32 = !isValuer && !tagged
 			}
 			s.jsonTag = d.Tags.Contains("json")
-			s.rawJSON = d.Type == rawJSONType
+			s.rawJSON = base == rawJSONType
 			s.binaryTag = d.Tags.Contains("binary")
 			s.stringTag = d.Tags.Contains("string")
 			s.isValuer = isValuer
@@ -311,7 +325,7 @@ func (c *caseCtx) wit(extra map[string]interface{}) map[string]interface{} {
 func TestCheck(t *testing.T) {
 	run := vlib.Start(t, "C13", "exploration")
 	defer run.Finish()
-	run.Rule("case i: table = zoo[i mod 7] (ints, scalars, tags, marshal, valuers, users, jsonbytes: every int/uint width, float32/64, bool, string, named scalars, []byte, time.Time, " +
+	run.Rule("case i: table = zoo[i mod 9], registered in a seed-dependent order (ints, scalars, tags, marshal, valuers, users, jsonbytes, models_a, models_b - the last two use distinct named column types that print identically (two packages called models, same-named function-local types); every int/uint width, float32/64, bool, string, named scalars, []byte, time.Time, " +
 		"pointer and non-pointer, implicitnull/string/binary/json tags, Marshal/BinaryMarshaler/TextMarshaler/json.Marshaler/gogo-proto fields, driver.Valuer+sql.Scanner types); " +
 		"x = seeded random value (boundary ints of every width, uint64 >= 2^63, -0, subnormals, shortest-repr floats, unicode/quote/NUL strings, nil/empty/binary []byte, zero time, " +
 		"times 1000..9999 at microsecond or whole-second precision in UTC or fixed zones, NULL pointers, zero values); per column a MySQL column type able to hold the Go type is drawn " +
@@ -326,17 +340,21 @@ func TestCheck(t *testing.T) {
 	run.Assume("schema change on one Binlog instance (one case in three): rows event, then a new table id whose information_schema column order is a fresh permutation with the same column count, then a rows event written in the new order; " +
 		"one case in six only changes the table id; both rows must invalidate the all-columns dependency")
 	run.Assume("the forms-model self-validation writes harness-made SQL values only (never thunder output) into the binlog file parsed by go-mysql")
+	run.Assume("UPDATE rows events with two different images (one case in two): x and a transition of x (each non-key column unchanged / to NULL or zero / from NULL to a value / to an unrelated row's value / map with extra keys / slice shrunk to empty), " +
+		"in either order, one or two pairs per event, v1 and v2; column types are the fields' natural ones; a dependency made of all column values of each image (as BuildStruct decodes that image alone) must be invalidated for both images")
+	run.Assume("models_a / models_b: column types are distinct named types with identical reflect.Type.String() (c13/a/models and c13/b/models, function-local types called Level), partly of different kinds; the registration order of all tables is a permutation drawn from the seed")
 	run.Assume("filters (3 per case over 0..all columns; rows R = x, an unrelated row and two hybrids, each as decoded from MySQL's text form): judged when every value denotes a value of its column's Go type " +
 		"(own value, pointer to / dereferenced value, typed or untyped nil, the same integer in another Go integer type, the plain column's driver value); filters with a foreign-typed, out-of-range or inexact value, " +
 		"or the encoded bytes of a tagged/Valuer column, are executed and recorded (observation_illtyped_filter:*) but not judged")
 	run.Assume("database/sql path: private driver (driver_test.go) that returns exactly the staged forms and overwrites handed-out []byte buffers on the next Next/Close, as go-sql-driver's reused read buffer is; " +
 		"binlog path: hand-built RowsEvents in the forms validated against the real decoder, pushed through livesql.NewBinlogForVerif -> RunPollLoop; table column order in the fake information_schema is a permutation with one extra column")
 
-	z, err := buildZoo()
+	z, err := buildZoo(run.Seed())
 	if err != nil {
 		run.Broken(err.Error())
 		return
 	}
+	run.Set("registration_order", strings.Join(z.order, ","))
 	// Pin the binlog forms of the model to what the real go-mysql decoder returns.
 	// Only harness-made values are used here (never thunder output), so a
 	// disagreement is a harness fault by construction.
@@ -498,6 +516,9 @@ func checkCase(run *vlib.Run, z *zoo, env *env, i int) {
 	// (3) database/sql path, (4) binlog path
 	env.dbPath(c, choices)
 	env.binlogPath(c, choices)
+	if run.Rand("updatepair", i).Intn(2) == 0 {
+		env.updatePairPath(c)
+	}
 
 	// (5) tester reflexivity, (6) filters through protobuf
 	c.checkTester()
